@@ -15,6 +15,7 @@ import (
 func init() {
 	zzsv.Register("ZZ_C02_Programs", ZZ_C02_Programs)
 	zzsv.Register("ZZ_C02_SwitchRegexp", ZZ_C02_SwitchRegexp)
+	zzsv.Register("ZZ_C02_ConstantConditions", ZZ_C02_ConstantConditions)
 }
 
 // zzGen generates control-flow programs.
@@ -30,6 +31,7 @@ type zzGen struct {
 	constAt   int
 	nconds    int
 	small     bool // fewer container lengths / condition kinds
+	nested    bool // generating a construct inside another one
 }
 
 func (g *zzGen) lens() int {
@@ -92,7 +94,7 @@ func (g *zzGen) leaf() *zzStmt {
 }
 
 func (g *zzGen) body(d int) []*zzStmt {
-	if d >= g.maxDepth {
+	if d > g.maxDepth {
 		return []*zzStmt{g.leaf()}
 	}
 	if g.sv.Choice("body.compound", 2) == 0 {
@@ -104,7 +106,11 @@ func (g *zzGen) body(d int) []*zzStmt {
 // iterable picks what a foreach walks over; contents are symbolic.
 func (g *zzGen) iterable() *zzExpr {
 	sv := g.sv
-	switch sv.Choice("iter", 4) {
+	ni := 4
+	if g.nested {
+		ni = 1
+	}
+	switch sv.Choice("iter", ni) {
 	case 0:
 		return g.need("arr", func() zv {
 			n := sv.Choice("arr.len", g.lens())
@@ -148,7 +154,18 @@ func (g *zzGen) iterable() *zzExpr {
 
 func (g *zzGen) compound(d int) *zzStmt {
 	sv := g.sv
-	switch sv.Choice("compound", 7) {
+	nk := 7
+	if d >= 2 {
+		// nested level: if, if/else, while, foreach over the array (every
+		// construct appears as the *outer* one; bounds the product)
+		nk = 5
+	}
+	k := sv.Choice("compound", nk)
+	if d >= 2 && k >= 2 {
+		k++ // skip the else-if chain at the nested level
+	}
+	g.nested = d >= 2
+	switch k {
 	case 0: // if
 		return &zzStmt{kind: sIf, e: g.cond(), body: g.body(d + 1)}
 	case 1: // if / else
@@ -220,7 +237,7 @@ func (g *zzGen) program() *zzProg {
 // ZZ_C02_Programs: result, host-call sequence and final variables of every
 // generated program agree with the reference interpreter, for all inputs.
 func ZZ_C02_Programs(sv *zzsv.T) {
-	g := newGen(sv, sv.Param("depth", 2, 3))
+	g := newGen(sv, sv.Param("depth", 1, 2))
 	p := g.program()
 	src := p.text()
 	sv.Note("script", src)
@@ -277,4 +294,38 @@ func ZZ_C02_SwitchRegexp(sv *zzsv.T) {
 			sv.Assert("C02.switch.arm", zzSame(sv, trace[0], zInt(want)))
 		}
 	}
+}
+
+// ZZ_C02_ConstantConditions: the same constructs when one condition is a
+// constant expression (true, false, 1 == 1, 1 == 2, 0 != 3, (1+2) == 3): the
+// language selects the same statements whether a condition is computed from
+// data or spelled out.
+func ZZ_C02_ConstantConditions(sv *zzsv.T) {
+	g := newGen(sv, 1)
+	g.small = true
+	g.constKind = 1 + sv.Choice("constkind", 6)
+	g.constAt = sv.Choice("constat", sv.Param("const.at", 1, 2))
+	p := &zzProg{}
+	p.main = append(p.main, g.compound(1))
+	switch 1 + sv.Choice("tail", 2) {
+	case 0:
+		p.main = append(p.main, &zzStmt{kind: sTrace, e: g.id()})
+	case 1:
+		p.main = append(p.main, &zzStmt{kind: sTrace, e: g.id()}, &zzStmt{kind: sReturn, e: g.id()})
+	default:
+		p.main = append(p.main, &zzStmt{kind: sIf, e: g.cond(), body: []*zzStmt{{kind: sReturn, e: g.id()}}, hasEl: true, els: []*zzStmt{{kind: sTrace, e: g.id()}}},
+			&zzStmt{kind: sReturn, e: g.id()})
+	}
+	src := p.text()
+	sv.Note("script", src)
+	var trace []object.Object
+	e, err := zzPrepare(sv, src, g.vars, g.order, sv.Choice("noopt", 2) == 1, &trace)
+	sv.Assert("C02.const.prepare", err == nil)
+	if err != nil {
+		return
+	}
+	out, rerr := e.Execute(nil)
+	ref, want := zzRunRef(sv, p, g.vars, nil)
+	zzDescribe(sv, "result", out, rerr)
+	zzCompareRun(sv, "C02.const", e, out, rerr, trace, ref, want, []string{"x", "w1"})
 }
